@@ -1243,6 +1243,85 @@ def _x2_check(fb, R, top, fn, X, C, Y, E, k0, depth):
     R.check(not msgs, 'X2-increment-advances-next-unless-at-end', k0 + '#advance-guard', top.site, '; '.join(msgs))
 
 
+def _value_field(fn, nid):
+    """this-member an expression denotes, directly (`m_x`) or by address (`&m_x`)"""
+    n = fn.sn(nid)
+    if n is not None and n.get('k') == 'unop' and n.get('op') == '&':
+        return _this_field(fn, n['sub'])
+    return _this_field(fn, nid)
+
+
+def _select_form(fn, nid, use_id):
+    """(condition id, member chosen when the condition is true, member chosen otherwise) for an expression that selects one
+    of two members: a ternary `c ? m_a : m_b`, or a local (value, reference or pointer, possibly dereferenced once more)
+    that is initialised with one member and conditionally re-assigned (`x = &m_b; if (c) x = &m_a;`), or assigned in both
+    branches of an if/else.  None if the expression is not such a selection."""
+    s = resolve_alias(fn, nid)
+    if s is None:
+        return None
+    if s.get('k') == 'condop':
+        return (s['cond'], _value_field(fn, s['then']), _value_field(fn, s['else']))
+    # pointer local: `*p`
+    inner = _deref_sub(fn, s['id']) if s.get('k') in ('unop', 'call') else None
+    if inner is not None:
+        s = resolve_alias(fn, inner)
+        if s is not None and s.get('k') == 'condop':
+            return (s['cond'], _value_field(fn, s['then']), _value_field(fn, s['else']))
+    if s is None or s.get('k') != 'var' or s.get('vk') != 'local':
+        return None
+    d = s['d']
+    decl = init = None
+    writes = []
+    for n in fn.all_nodes():
+        k = n.get('k')
+        if k == 'decl':
+            for v in n['vars']:
+                if v['d'] == d:
+                    decl = n
+                    init = v.get('init') if isinstance(v.get('init'), int) else None
+        elif k == 'assign' and n.get('op', '=') == '=':
+            l = fn.sn(n['lhs'])
+            if l is not None and l.get('k') == 'var' and l.get('d') == d:
+                writes.append((n['id'], n['rhs']))
+        elif k == 'call' and n.get('op') == '=' and n.get('recv') is not None and n.get('args'):
+            l = fn.sn(n['recv'])
+            if l is not None and l.get('k') == 'var' and l.get('d') == d:
+                writes.append((n['id'], n['args'][0]))
+        elif k == 'unop' and n.get('op') in ('++', '--'):
+            l = fn.sn(n['sub'])
+            if l is not None and l.get('k') == 'var' and l.get('d') == d:
+                return None
+    if decl is None or not writes or len(writes) > 2:
+        return None
+    base = {(c, sn, b) for (c, sn, b) in guards_of(fn, decl['id'])}
+
+    def own_guard(w):
+        g = [(c, sn, b) for (c, sn, b) in guards_of(fn, w) if (c, sn, b) not in base]
+        blocks = {b for (_c, _s, b) in g}
+        if len(blocks) != 1:
+            return None
+        return g[0][0], g[0][1]     # the whole condition of that branch comes first
+    for (w, _r) in writes:
+        if not fn.elem_dominates(decl['id'], w):
+            return None
+        # the write must be able to reach the use, and the use must not come before it
+        if path_search(fn, use_id, lambda e: e == w, lambda e: False) is not None:
+            return None
+    if len(writes) == 1 and init is not None:
+        g = own_guard(writes[0][0])
+        if g is None:
+            return None
+        a, b = _value_field(fn, writes[0][1]), _value_field(fn, init)
+        return (g[0], a, b) if g[1] else (g[0], b, a)
+    if len(writes) == 2 and init is None:
+        g1, g2 = own_guard(writes[0][0]), own_guard(writes[1][0])
+        if g1 is None or g2 is None or fn.expr(g1[0]) != fn.expr(g2[0]) or g1[1] == g2[1]:
+            return None
+        t, e = (writes[0][1], writes[1][1]) if g1[1] else (writes[1][1], writes[0][1])
+        return (g1[0], _value_field(fn, t), _value_field(fn, e))
+    return None
+
+
 def diffiterator_rules(fb, R, O):
     roles = {}
     def builds_diff(g, n):
@@ -1264,12 +1343,7 @@ def diffiterator_rules(fb, R, O):
         C = c_n['name'] if c_n is not None and c_n.get('k') == 'member' and fn.is_this_member(c_n['id']) else None
         sides = []
         for i in (0, 2):
-            s = resolve_alias(fn, subs[i]) if subs[i] is not None else None
-            if s is not None and s.get('k') == 'condop':
-                t, e = _this_field(fn, s['then']), _this_field(fn, s['else'])
-                sides.append((s['cond'], t, e))
-            else:
-                sides.append(None)
+            sides.append(_select_form(fn, subs[i], con['id']) if subs[i] is not None else None)
         ok = C is not None and all(sd is not None and sd[1] == C and sd[2] not in (None, C) for sd in sides) and sides[0][2] != sides[1][2]
         R.check(ok, 'X1-set_diff-construct', k0 + '#construct', fn.loc(con['id']),
                 'the DiffObject must be built from (*(c1 ? curr : prev), *curr, *(c2 ? curr : next)); found %s' % fn.expr(con['id']))
